@@ -110,6 +110,18 @@ class Scenario:
         if cap:
             return self._rec(name, 'real', 'sat', r.t, confirmed=True, replay=cap, note='solver model found; not replayed individually (scenario already has replayed violations)')
         rep = self.confirm_real(name, lhs_out, a, rhs, fs, r.model)
+        if self.enc.cuts and not rep.get('confirmed'):
+            # a model of the CUT problem whose cut values are inconsistent with the real computation proves nothing (s2.4):
+            # decide again with the cut variables tied to the nodes they replace
+            ties = [self.enc.eq_formula(self.enc.vvar(nm), self.enc.node(nid, cut=False)) for nid, nm in self.enc.cuts.items() if nm in self.enc.vars]
+            r2 = R.solve(name + ' (cuts tied)', fs + ties, self.timeout)
+            self.queries += 1
+            self.solver_time += r2.t
+            if r2.status == 'unsat':
+                return self._rec(name, 'real', 'unsat', r.t + r2.t, h=goal.hash(), note='holds once the cut variables are tied to the computation they replace')
+            if r2.status == 'unknown':
+                return self._rec(name, 'real', 'unknown', r.t + r2.t, detail='sat under the cut, no verdict with the cut variables tied: ' + str(r2.detail))
+            rep = self.confirm_real(name, lhs_out, a, rhs, fs + ties, r2.model)
         return self._rec(name, 'real', 'sat', r.t, **rep)
 
     def path_forced(self, name='recorded path is the only feasible one on the domain'):
@@ -240,6 +252,14 @@ class Scenario:
             if nm not in env:
                 if nm.startswith('POISON_'):
                     env[nm] = Fraction(1)  # uninitialised storage: any value is possible
+                elif nm.startswith('sqrt_') and nm[5:].isdigit():
+                    # value of an (opaque) square root: from its recorded argument, to double precision (replay support only)
+                    import math
+                    arg = self.eval_val(self.enc.node(self.dag.nodes[int(nm[5:])][1]), env)
+                    if arg < 0:
+                        raise KeyError(nm)
+                    env[nm] = Fraction(math.sqrt(float(arg)))
+                    self._approx_eval = True
                 else:
                     raise KeyError(nm)
             x = env[nm]
@@ -278,6 +298,8 @@ class Scenario:
             try:
                 pt = self.point_from_model(m)
                 env = self.env_from_point(pt, m)
+                for nid, nm in self.enc.cuts.items():     # cut variables take the values the real computation gives them
+                    env[nm] = self.eval_val(self.enc.node(nid, cut=False), dict(env))
                 exp = self.eval_val(rhs, env)
                 lhs_exact = self.eval_val(a, env)
             except (ZeroDivisionError, KeyError, OverflowError) as e:
@@ -312,7 +334,8 @@ class Scenario:
             poisoned = lhs_out is not None and bool(self.dag.poisons_of([self.dag.outs[lhs_out]]))
             if poisoned:
                 out['note'] = 'result depends on uninitialised storage (POISON): the native value is whatever the heap held'
-            if best['resid_exact'] > 0 and (best['lhs_native'] is not None or poisoned):
+            floor_ = 1e-9 if getattr(self, '_approx_eval', False) else 0
+            if best['resid_exact'] > floor_ and (best['lhs_native'] is not None or poisoned):
                 out['confirmed'] = True
                 out['replay'] = self.write_replay(name, {'kind': 'real', 'lhs_out': lhs_out, 'expected': D.f2hex(best['expected']),
                                                          'tol': 1e-6, 'shadows': best['point'], 'resid_native': best['resid_native'],
